@@ -38,6 +38,10 @@ def instances(tier):
         out.append(dict(id="%s-after-events-euler-N2" % ("time-lookup" if mode == "time" else mode), family="euler", N=2, mode=mode, dense=False, events=True, budget=b))
     out.append(dict(id="time-lookup-dense-continued-tol-change-euler-N2", family="euler", N=2, mode="time", dense=True, cont=True, tol_change=True, budget=b))
     out.append(dict(id="time-lookup-continued-euler-N2", family="euler", N=2, mode="time", dense=False, cont=True, budget=b))
+    # the run is recorded in three legs whose lengths are not multiples of the step: the landing steps of the first two are interior rows
+    for mode in ("time", "slice"):
+        out.append(dict(id="%s-three-legs-euler-N6" % ("time-lookup" if mode == "time" else mode), family="euler", N=6, mode=mode, dense=False, legs=3,
+                        budget=dict(b, max_paths=6000)))
     # a step callback looks the trajectory up by time / slices it WHILE the run is in progress (monitoring code): what it sees is the part
     # recorded so far, and the lookups made after the run answer from the complete trajectory
     for mode in ("time", "slice"):
@@ -80,6 +84,20 @@ def scenario(c, inst):
                 a.rtol = 1e-5
                 a.atol = 1e-7
             c.assume(absval(c, tf - T1) <= inst["N"] * absval(c, a.dt))
+        if inst.get("legs"):
+            # legs of one full step plus a landing step each (the working step is never longer than the distance to a target)
+            cur = t0
+            for k in range(inst["legs"] - 1):
+                Tk = c.real("Tleg%d" % k)
+                c.assume((Tk - cur) * (tf - Tk) > 0)
+                c.assume(absval(c, Tk - cur) > adt)
+                c.assume(absval(c, Tk - cur) < 2 * adt)
+                st, r = run(a.integrate, Tk, callback=spans.cap_callback(c, cap, kind))
+                if st != "ok":
+                    return
+                cur = Tk
+            c.assume(absval(c, tf - cur) > adt)
+            c.assume(absval(c, tf - cur) < 2 * adt)
         if inst.get("against"):
             Tr = c.real("Trev")
             c.assume((Tr - t0) * (tf - t0) < 0)
